@@ -2,6 +2,8 @@ package rules
 
 import (
 	"fmt"
+	"go/types"
+	"math/big"
 	"strings"
 
 	"golang.org/x/tools/go/ssa"
@@ -265,4 +267,88 @@ func scanExit(p *core.Prog, r *core.Result) {
 		}
 	}
 	r.Floor("ubjson_marker_scans", scans, 4)
+}
+
+// R5 CHAR-RANGE (ubjson encoder): the UBJSON char type ('C') carries one ASCII
+// character, decimal 0..127 (draft 12). Wherever the encoder writes the char
+// marker, the payload byte written next to it (same basic block) lies in
+// 0..127 on every path; anything above has to go out under another marker.
+func charRange(p *core.Prog, r *core.Result, sizes types.Sizes) {
+	sp := p.SPkgs["ubjson"]
+	if sp == nil {
+		return
+	}
+	cm, _ := sp.Members["charMarker"].(*ssa.NamedConst)
+	if cm == nil {
+		r.Undecided(".CHAR-RANGE", "ubjson.charMarker", "char marker constant not found")
+		return
+	}
+	cv, _ := constIntVal(cm.Value)
+	sites := 0
+	for _, f := range p.ModFuncs() {
+		pk := core.FuncPkg(f)
+		if pk == nil || pk.Name() != "ubjson" || f.Signature.Recv() == nil || namedOf(f.Signature.Recv().Type()) == nil || namedOf(f.Signature.Recv().Type()).Obj().Name() != "Visitor" {
+			continue
+		}
+		// blocks that store the char marker, and the payload store that follows in the same block
+		payload := map[*ssa.Store]bool{}
+		for _, b := range f.Blocks {
+			seenMarker := false
+			for _, in := range b.Instrs {
+				st, ok := in.(*ssa.Store)
+				if !ok {
+					continue
+				}
+				if c, ok := constIntVal(st.Val); ok && c == cv {
+					if bt, ok := st.Val.Type().Underlying().(*types.Basic); ok && bt.Kind() == types.Uint8 {
+						seenMarker = true
+						continue
+					}
+				}
+				if seenMarker {
+					if bt, ok := st.Val.Type().Underlying().(*types.Basic); ok && bt.Kind() == types.Uint8 {
+						if _, isC := st.Val.(*ssa.Const); !isC {
+							payload[st] = true
+							seenMarker = false
+						}
+					}
+				}
+			}
+		}
+		if len(payload) == 0 {
+			continue
+		}
+		env := &ienv{num: newNumbering(), sizes: sizes}
+		k := &r5client{env: env, fn: f}
+		worst := map[*ssa.Store]*big.Int{}
+		k.observe = func(s istate, ins ssa.Instruction) {
+			st, ok := ins.(*ssa.Store)
+			if !ok || !payload[st] {
+				return
+			}
+			iv, ok := env.get(s, st.Val)
+			if !ok {
+				return
+			}
+			if cur := worst[st]; cur == nil || iv.hi.Cmp(cur) > 0 {
+				worst[st] = iv.hi
+			}
+		}
+		WalkPaths[istate](k, f.Blocks[0], 0, istate{}, 200000, nil)
+		for st := range payload {
+			sites++
+			pos := p.Pos(st.Pos())
+			hi := worst[st]
+			fkey := core.FuncKey(f)
+			switch {
+			case hi == nil:
+				r.Undecided(".CHAR-RANGE", fkey, "payload store not reached by the path walk")
+			case hi.Cmp(big.NewInt(127)) <= 0:
+				r.Ok(".CHAR-RANGE", pos, fmt.Sprintf("%s: the byte written under the char marker is at most %s", fkey, hi))
+			default:
+				r.Fail(".CHAR-RANGE", fkey+"|char", pos, fmt.Sprintf("%s writes a byte that can be as high as %s under the UBJSON char marker 'C', which carries ASCII 0..127 only: an independent decoder rejects or misreads the document (bytes above 127 need the uint8 marker)", fkey, hi), "")
+			}
+		}
+	}
+	r.Floor("ubjson_char_marker_sites", sites, 1)
 }
